@@ -689,8 +689,38 @@ def selftest(prop: str, tier: str, seeds, jobs: int) -> dict:
     return {"simfs_fidelity_cases": n + m}
 
 
+def farm_phase(prop: str, seeds, jobs: int, n: int):
+    """One long-lived process compiling n distinct schemas, then a sample again (the quick
+    tier's share of the very long histories that the thorough tier mixes into its seeds)."""
+    gold = Goldens()
+    out = []
+    info = {"farm_runs": 0, "farm_operations": 0, "farm_compared": 0}
+    for seed in seeds:
+        plan, keys = gen_compiler.gen_farm_plan(seed, "c18", n)
+        goldens = gold.get(seed, keys)
+        res, vs = execute_checked(plan)
+        if res is not None:
+            v2, compared = oracles.c18_violations(plan, res, goldens)
+            vs = vs + v2
+            info["farm_compared"] += len(compared)
+            info["farm_operations"] += len(res["history"])
+        info["farm_runs"] += 1
+        for v in vs:
+            v["plan"] = plan
+            v["phase"] = "farm"
+            if v.get("key"):
+                v["golden"] = goldens.get(v["key"])
+        out.extend(vs)
+    return info, out
+
+
 def extra_phase(prop: str, tier: str, seeds, jobs: int):
-    """C09: single-fault sweeps over a few builds (quick: 3, thorough: 60)."""
+    """C09: single-fault sweeps over a few builds. C18 (quick): one build-farm history."""
+    if prop == "C18":
+        if tier != "quick":
+            return {}, []
+        info, vs = farm_phase(prop, seeds[:1], jobs, 300)
+        return {"build_farm": info}, vs
     if prop != "C09":
         return {}, []
     k = 1 if tier == "quick" else 40
